@@ -2586,6 +2586,38 @@ pub mod verif_hooks_queue {
     (before.join(" "), after.join(" "))
   }
 
+  /// Runs the real comma-separated-list production
+  /// (`parse_comma_separated_list_with_end_token(end, parse_upper_id_with_comments)`, then the
+  /// closing token) on `text` = `A, B, C >` / `A, B, )`: the comments handed to every element, to
+  /// the closing token, and those still pending afterwards.
+  pub fn list_trace(
+    text: &str,
+    close_paren: bool,
+  ) -> (Vec<(String, Vec<String>)>, Vec<String>, Vec<String>) {
+    use super::super::lexer::TokenOp;
+    let mut heap = Heap::new();
+    let mut error_set = ErrorSet::new();
+    let mr = ModuleReference::DUMMY;
+    let mut parser =
+      SourceParser::new(TokenProducer::new(text, mr), &mut heap, &mut error_set, mr, HashSet::new());
+    let end = if close_paren { TokenOp::RightParenthesis } else { TokenOp::GreaterThan };
+    let ids = parser
+      .parse_comma_separated_list_with_end_token(end, &mut SourceParser::parse_upper_id_with_comments);
+    let (_, end_comments) = parser.assert_and_consume_operator(end);
+    let texts = |parser: &SourceParser, cs: &[Comment]| -> Vec<String> {
+      cs.iter().map(|c| c.text.as_str(&*parser.heap).to_string()).collect()
+    };
+    let elements = ids
+      .iter()
+      .map(|id| {
+        (id.name.as_str(&*parser.heap).to_string(), texts_of(&parser, id.associated_comments))
+      })
+      .collect();
+    let end_texts = texts(&parser, &end_comments);
+    let pending = texts(&parser, &parser.pending_comments);
+    (elements, end_texts, pending)
+  }
+
   /// Builds a comment store from `groups` (one reference per non-empty group, like
   /// `create_comment_reference`), then calls
   /// `mod_associated_comments_with_additional_preceding_comments(store, refs[target], extra)` and
